@@ -2,7 +2,8 @@
 from vlib import *
 from par_common import validate_traces
 
-CACHE_FILES = {"cache/cache.go": {"imports": {"os": "vos"}, "rewrite_go": True}}
+# (sync / sync/atomic are not imported by the unchanged cache.go: the redirections take effect when a change adds them)
+CACHE_FILES = {"cache/cache.go": {"imports": {"os": "vos", "sync": "vsync", "sync/atomic": "vatomic"}, "rewrite_go": True}}
 CACHE_SHIMS = ["vsched", "vsync", "vatomic", "vrand", "vos"]
 
 L1_NAMES = {"L1LookupsSound", "L1DirectPredicates", "L1Terminates", "L1OthersStayReadable", "L1StoredIsReadable",
